@@ -1019,7 +1019,9 @@ func TestC12_Native(t *testing.T) {
 	ev.Floor("native:hostile-past-decoding", "native:cases", 0.20)
 	ev.Floor("native:argmode:prefix-hostile", "native:cases", 0.12)
 	for _, cn := range natNamesSorted() {
-		ev.Floor("native:prefix-hostile:"+cn, "native:cases", 0.004)
+		// every contract at least twice per 1300 cases (the rarest, lockproxy, averages ~8: 0.004 = 5.2 sat
+		// inside its noise and starved at one seed); TestC12_NativeCountPrefix sweeps every method anyway
+		ev.Floor("native:prefix-hostile:"+cn, "native:cases", 0.0015)
 	}
 	harn.Check(t, scaled(1300), 24000, func(t *rapid.T) {
 		m := newModel()
